@@ -70,7 +70,8 @@ structure RouteCfg where
   keepsClass : Bool
   /-- the restored object holds the very same `Unit` object -/
   unitSame : Bool
-  /-- the unit travels as `str(units)` (the display string: `°C`, `Δ°C`, `°F`, `Δ°F`) -/
+  /-- the unit travels as a string that cannot name `delta_degC` / `delta_degF` (before the parser
+      fix acfd34f: `str(units)` is `Δ°C`, which `parse_unyt_expr` rejected) -/
   unitByDisplayStr : Bool
   /-- `base_value`, `base_offset`, `dimensions` travel with the unit (else: recomputed from the
       restored registry's table by the unit's expression) -/
